@@ -13,10 +13,10 @@ package static
 //@ requires s != nil
 //@ requires [table] forall c string, k int :: c in s.access && 0 <= k && k < len(s.access[c]) ==> s.access[c][k] != nil && s.access[c][k].wallet != nil && s.access[c][k].account != nil
 //@ ensures [decision] result <==> (credentials != nil && credentials.Client != "" && wanOk(account) && wanW(account) != "" && credentials.Client in s.access && decide(s.access[credentials.Client], wanW(account), wanA(account), operation))
-//@ loop #1
+//@ loop #1 over range paths
 //@ invariant [range] 0 <= _n && _n <= len(paths)
 //@ invariant [nomatch] forall q int, j int :: 0 <= q && q < _n && 0 <= j && j < len(paths[q].operations) && pathMatch(paths[q], walletName, accountName) ==> !opAllows(paths[q].operations[j], operation) && !opDenies(paths[q].operations[j], operation)
-//@ loop #2
+//@ loop #2 over range path.operations
 //@ invariant [range] 0 <= _n && _n <= len(path.operations) && 0 <= _n1 && _n1 < len(paths) && path == paths[_n1] && pathMatch(path, walletName, accountName)
 //@ invariant [nobear] forall j int :: 0 <= j && j < _n ==> !opAllows(path.operations[j], operation) && !opDenies(path.operations[j], operation)
 
@@ -51,17 +51,17 @@ package static
 //@ ensures [err] result1 != nil ==> result0 == nil
 //@ ensures [ok] result1 == nil ==> result0 != nil && fresh(result0) && result0.monitor != nil && tableOf(result0.access, result0.permissions)
 //@ ensures [clients] result1 == nil ==> (forall c string :: c in result0.permissions ==> c != "" && len(result0.permissions[c]) > 0)
-//@ loop #1
+//@ loop #1 over range params
 //@ invariant [range] 0 <= _n && _n <= len(params)
 //@ invariant [cfg] forall c string, k int :: c in parameters.permissions && 0 <= k && k < len(parameters.permissions[c]) ==> parameters.permissions[c][k] != nil
-//@ loop #2
+//@ loop #2 over range parameters.permissions
 //@ invariant [fresh] parameters.access != nil && fresh(parameters.access) && parameters.monitor != nil
 //@ invariant [dom] forall c string :: (c in parameters.access) <==> visited()[c]
 //@ invariant [lens] forall c string :: visited()[c] ==> len(parameters.access[c]) == len(parameters.permissions[c])
 //@ invariant [done] forall c string, k int :: visited()[c] && 0 <= k && k < len(parameters.permissions[c]) ==> entryOf(parameters.access[c][k], parameters.permissions[c][k])
 //@ invariant [alloc] forall c string :: visited()[c] ==> allocated(parameters.access[c])
 //@ invariant [clients] forall c string :: visited()[c] ==> c != "" && len(parameters.permissions[c]) > 0
-//@ loop #3
+//@ loop #3 over range permissions
 //@ invariant [range] 0 <= _n && _n <= len(permissions) && len(paths) == len(permissions) && fresh(paths) && permissions == parameters.permissions[client] && client != "" && len(permissions) > 0
 //@ invariant [built] forall k int :: 0 <= k && k < _n ==> entryOf(paths[k], permissions[k])
 
@@ -71,5 +71,5 @@ package static
 //@ ensures [err] result1 != nil ==> result0 == nil
 //@ ensures [ok] result1 == nil ==> result0 != nil && (exists perms map[string][]*checker.Permissions :: tableOf(result0.access, perms))
 //@ ensures [table] result1 == nil ==> (forall c string, k int :: c in result0.access && 0 <= k && k < len(result0.access[c]) ==> result0.access[c][k] != nil && result0.access[c][k].wallet != nil && result0.access[c][k].account != nil)
-//@ loop #1
+//@ loop #1 over range s.access
 //@ invariant [perms] perms != nil && fresh(perms) && s != nil && fresh(s) && s.access == parameters.access && s.monitor == parameters.monitor
